@@ -363,6 +363,12 @@ def handleRobust (focus : String) (c : Case) : String := Id.run do
       let res := l.getD 2 ""
       if res == "panic" || res == "hang" then
         acc := { acc with mon := acc.mon.push s!"{stage}-{res}:{(l.getD 3 "").take 100}" }
+      -- a parameter vector of the wrong length was applied: rejected state, parameters kept
+      if stage == "wrongset" && res == "ok" then
+        if attrStr l "res" != "none" then
+          acc := { acc with mon := acc.mon.push s!"residuals-present-after-a-parameter-vector-of-length-{attrStr l "len"}-was-applied(P={attrStr l "p"})" }
+        if attrStr l "plen" != attrStr l "p" then
+          acc := { acc with mon := acc.mon.push s!"params()-has-length-{attrStr l "plen"}-after-a-rejected-update(P={attrStr l "p"})" }
       if stage == "fit" && (res == "ok" || res == "err") then
         fitTag := s!"fit-{res}"
         if attrStr l "band" == "panic" then
